@@ -1,6 +1,553 @@
 package main
 
-import "pvharness/lib"
+// Hunt scenarios: the REAL Handler6 (spoofLoop goroutines, real 2-2.8 s timers) on a recording
+// connection.  A scenario is a script of API calls and received RAs with real-time delays.  The
+// frames captured on the connection are grouped into bursts (one pass of one spoofLoop = one
+// neighbour advertisement per learned router to one destination); every observed burst becomes a
+// `W:<eth dst>:<ip dst>` event placed where it happened in the call log, so that the model is asked
+// "what does a loop with this destination emit in the state reached here" and must answer exactly
+// the advertisements that were captured (a burst to a MAC that is not hunted, or before a router is
+// known, or after Close, has no counterpart in the model: disagreement).
+// Independent Go-side oracles (no model) check the property's words directly on the capture.
 
-func registerHunt(r *lib.Run)                {}
-func huntScenarios(r *lib.Run, rng *lib.Rand) {}
+import (
+	"fmt"
+	"net"
+	"net/netip"
+	"sort"
+	"strconv"
+	"strings"
+	"sync"
+	"time"
+
+	"github.com/irai/packet"
+	"github.com/irai/packet/handlers/icmp_spoofer"
+	"pvharness/lib"
+)
+
+type hop struct {
+	kind    byte // S P C R
+	mac     net.HardwareAddr
+	ip      netip.Addr // zero = invalid
+	counter int
+	hk      bool
+	src     netip.Addr
+	eth     net.HardwareAddr
+	msg     []byte
+	delay   int // ms to sleep after the call
+}
+
+func ipTok(ip netip.Addr) string {
+	if !ip.IsValid() {
+		return "-"
+	}
+	return hx(ip.AsSlice())
+}
+func tokIP(s string) netip.Addr {
+	if s == "-" {
+		return netip.Addr{}
+	}
+	ip, _ := netip.AddrFromSlice(lib.UnHex(s))
+	return ip
+}
+
+func (o hop) tok() string {
+	switch o.kind {
+	case 'S', 'P':
+		return fmt.Sprintf("%c:%s:%s", o.kind, hx(o.mac), ipTok(o.ip))
+	case 'C':
+		return "C"
+	case 'R':
+		hk := "F"
+		if o.hk {
+			hk = "T"
+		}
+		return fmt.Sprintf("R:%d:%s:%s:%s:%s", o.counter, hk, ipTok(o.src), hx(o.eth), hx(o.msg))
+	}
+	return "?"
+}
+
+func parseScript(toks []string) []hop {
+	var ops []hop
+	for _, t := range toks {
+		f := strings.Split(t, ":")
+		switch f[0] {
+		case "S", "P":
+			ops = append(ops, hop{kind: f[0][0], mac: lib.UnHex(f[1]), ip: tokIP(f[2])})
+		case "C":
+			ops = append(ops, hop{kind: 'C'})
+		case "R":
+			c, _ := strconv.Atoi(f[1])
+			ops = append(ops, hop{kind: 'R', counter: c, hk: f[2] == "T", src: tokIP(f[3]), eth: lib.UnHex(f[4]), msg: lib.UnHex(f[5])})
+		case "D":
+			if n := len(ops); n > 0 {
+				ops[n-1].delay, _ = strconv.Atoi(f[1])
+			}
+		case "W": // derived from the capture; ignored on input
+		}
+	}
+	return ops
+}
+
+type naRec struct {
+	t                          time.Time
+	ethDst, ethSrc             string
+	ipSrc, ipDst               string
+	hop                        int
+	flags                      string
+	target, tlla               string
+	ethDstB                    []byte
+}
+
+func (n naRec) show() string {
+	return fmt.Sprintf("%s/%s/%d/%s/%s/%s", n.target, n.ipSrc, n.hop, n.flags, n.tlla, n.ethSrc)
+}
+
+// independent decode of a captured frame; ok only for an ICMPv6 neighbour advertisement with a TLLA option
+func decodeNA(f []byte, t time.Time) (naRec, bool) {
+	if len(f) < 14+40+32 || f[12] != 0x86 || f[13] != 0xdd || f[14+6] != 58 || f[54] != 136 {
+		return naRec{}, false
+	}
+	fl := f[58]
+	n := naRec{t: t, ethDst: hx(f[0:6]), ethSrc: hx(f[6:12]), hop: int(f[14+7]), ipSrc: hx(f[22:38]), ipDst: hx(f[38:54]),
+		flags: b01(fl&0x80 != 0) + b01(fl&0x40 != 0) + b01(fl&0x20 != 0), target: hx(f[62:78]), ethDstB: f[0:6]}
+	if f[78] == 2 && f[79] == 1 {
+		n.tlla = hx(f[80:86])
+	} else {
+		n.tlla = "-"
+	}
+	return n, true
+}
+
+type callLog struct {
+	op       hop
+	t0, t1   time.Time
+	obs      string
+	newRtr   string // hex of the router IP this RA created, "" otherwise
+	nRouters int    // after the call
+}
+
+type event struct {
+	t    time.Time
+	tok  string
+	obs  string
+	call int // index in calls or -1 for a burst
+	nas  []naRec
+}
+
+func stageName(s packet.HuntStage, err error) string {
+	n := "?"
+	switch s {
+	case packet.StageNoChange:
+		n = "nochange"
+	case packet.StageNormal:
+		n = "normal"
+	case packet.StageHunt:
+		n = "hunt"
+	}
+	if err != nil {
+		n += "!" + strings.TrimPrefix(errName(err), "err:")
+	}
+	return n
+}
+
+// runScript executes the script in real time and returns the derived model line (tokens) and the observation.
+func runScript(r *lib.Run, ops []hop, label string) ([]string, string) {
+	s, conn := lib.NewSession()
+	h, _ := icmp_spoofer.New6(s)
+	calls := make([]callLog, 0, len(ops))
+	closedAt := time.Time{}
+	for _, o := range ops {
+		c := callLog{op: o, t0: time.Now()}
+		switch o.kind {
+		case 'S':
+			st, err := h.StartHunt(packet.Addr{MAC: o.mac, IP: o.ip})
+			c.obs = stageName(st, err)
+		case 'P':
+			st, err := h.StopHunt(packet.Addr{MAC: o.mac, IP: o.ip})
+			c.obs = stageName(st, err)
+		case 'C':
+			h.Close()
+			c.obs = "closed"
+			if closedAt.IsZero() {
+				closedAt = time.Now()
+			}
+		case 'R':
+			h.Lock()
+			before := len(h.LANRouters)
+			h.Unlock()
+			ret := deliver(s, h, o.counter, o.eth, o.src, o.msg, o.hk)
+			h.Lock()
+			after := len(h.LANRouters)
+			def := "-"
+			if h.Router != nil {
+				a := h.Router.Addr.IP.As16()
+				def = hx(a[:])
+			}
+			h.Unlock()
+			rt := h.FindRouter(o.src)
+			dump := "none"
+			if rt.Addr.IP.IsValid() {
+				dump = showRouterAll(rt)
+			}
+			c.obs = fmt.Sprintf("%s def=%s n=%d %s", ret, def, after, dump)
+			c.nRouters = after
+			if after > before {
+				a := o.src.As16()
+				c.newRtr = hx(a[:])
+			}
+		}
+		c.t1 = time.Now()
+		calls = append(calls, c)
+		time.Sleep(time.Duration(o.delay) * time.Millisecond)
+	}
+	// let every loop run out: Close wakes them all; a loop may be between its check and its sends
+	h.Close()
+	endT := time.Now()
+	time.Sleep(60 * time.Millisecond)
+	frames, times := conn.TakeTimed()
+	go s.Close()
+
+	var nas []naRec
+	for i, f := range frames {
+		if n, ok := decodeNA(f, times[i]); ok {
+			nas = append(nas, n)
+		} else {
+			r.Viol("unexpected-frame", label+": the handler emitted a frame that is not a neighbour advertisement: "+hx(f), "")
+		}
+	}
+	// ---- bursts: per destination, clusters in time, split into layers of distinct targets ----
+	byKey := map[string][]naRec{}
+	for _, n := range nas {
+		k := n.ethDst + ":" + n.ipDst
+		byKey[k] = append(byKey[k], n)
+	}
+	var evs []event
+	for k, l := range byKey {
+		sort.SliceStable(l, func(i, j int) bool { return l[i].t.Before(l[j].t) })
+		var cluster []naRec
+		flush := func() {
+			if len(cluster) == 0 {
+				return
+			}
+			// layer j holds the j-th occurrence of every target
+			cnt := map[string]int{}
+			var layers [][]naRec
+			for _, n := range cluster {
+				j := cnt[n.target]
+				cnt[n.target]++
+				for len(layers) <= j {
+					layers = append(layers, nil)
+				}
+				layers[j] = append(layers[j], n)
+			}
+			// fuller layers first (a loop that saw more routers woke later than one that saw fewer is
+			// decided below by content, not by this order)
+			for _, ly := range layers {
+				f := strings.SplitN(k, ":", 2)
+				ipd := f[1]
+				evs = append(evs, event{t: ly[0].t, tok: "W:" + f[0] + ":" + ipd, call: -1, nas: ly})
+			}
+			cluster = nil
+		}
+		for _, n := range l {
+			if len(cluster) > 0 {
+				prev := cluster[len(cluster)-1].t
+				split := n.t.Sub(prev) > 25*time.Millisecond
+				for _, c := range calls { // a call that started in between separates two passes
+					if c.t0.After(prev) && !c.t0.After(n.t) {
+						split = true
+					}
+				}
+				if split {
+					flush()
+				}
+			}
+			cluster = append(cluster, n)
+		}
+		flush()
+	}
+	for i := range evs {
+		l := evs[i].nas
+		s := make([]string, len(l))
+		for j, n := range l {
+			s[j] = n.show()
+		}
+		sort.Strings(s) // target is the leading field
+		evs[i].obs = "na[" + strings.Join(s, ",") + "]"
+	}
+	for i, c := range calls {
+		evs = append(evs, event{t: c.t0, tok: c.op.tok(), obs: c.obs, call: i})
+	}
+	sort.SliceStable(evs, func(i, j int) bool { return evs[i].t.Before(evs[j].t) })
+	// ---- placement corrections (the schedule is recovered from what was observed) ----
+	// (a) an RA that created router X wakes the loops before the table is updated: a burst right
+	//     after it that lacks X ran before the update.  (b) a burst that started while StopHunt/Close
+	//     was executing was already past its membership check.
+	for ci, c := range calls {
+		j := -1
+		for k, e := range evs {
+			if e.call == ci {
+				j = k
+			}
+		}
+		var moved, stay []event
+		k := j + 1
+		for ; k < len(evs) && evs[k].call < 0; k++ {
+			e := evs[k]
+			move := false
+			switch c.op.kind {
+			case 'R':
+				if c.newRtr != "" && e.t.Sub(c.t0) < 100*time.Millisecond {
+					has := false
+					for _, n := range e.nas {
+						if n.target == c.newRtr {
+							has = true
+						}
+					}
+					move = !has
+				}
+			case 'P', 'C':
+				move = !e.t.After(c.t1.Add(2 * time.Millisecond))
+			}
+			if move {
+				moved = append(moved, e)
+			} else {
+				stay = append(stay, e)
+			}
+		}
+		if len(moved) > 0 {
+			seg := append(append(append([]event{}, moved...), evs[j]), stay...)
+			copy(evs[j:k], seg)
+		}
+	}
+	toks, obs := []string{}, []string{}
+	for _, e := range evs {
+		toks = append(toks, e.tok)
+		obs = append(obs, e.obs)
+		if e.call >= 0 && calls[e.call].op.delay > 0 {
+			toks = append(toks, fmt.Sprintf("D:%d", calls[e.call].op.delay))
+		}
+	}
+	huntOracles(r, "h "+strings.Join(toks, " "), calls, nas, closedAt, endT)
+	r.Stat("hunt.bursts", int64(len(evs)-len(calls)))
+	r.Stat("hunt.nas", int64(len(nas)))
+	return toks, strings.Join(obs, " | ")
+}
+
+// huntOracles: the property's words checked on the capture, without the model.
+func huntOracles(r *lib.Run, label string, calls []callLog, nas []naRec, closedAt, endT time.Time) {
+	const slack = 20 * time.Millisecond
+	host := hx(lib.HostMAC)
+	for _, n := range nas {
+		// hunted at emission? replay the call log up to the emission time
+		hunted := false
+		var lastStop time.Time
+		routers := map[string]bool{}
+		anyRouter := false
+		for _, c := range calls {
+			if c.t0.After(n.t) {
+				break
+			}
+			switch c.op.kind {
+			case 'S':
+				if strings.HasPrefix(c.obs, "hunt") && hx(c.op.mac) == n.ethDst {
+					hunted = true
+				}
+			case 'P':
+				if c.obs == "normal" && hx(c.op.mac) == n.ethDst {
+					hunted = false
+					lastStop = c.t1
+				}
+			case 'R':
+				if strings.HasPrefix(c.obs, "ok") && c.nRouters > 0 {
+					anyRouter = true
+				}
+				if strings.Contains(c.obs, " n=") && !strings.HasSuffix(c.obs, " none") {
+					a := c.op.src.As16()
+					routers[hx(a[:])] = true
+				}
+			}
+		}
+		replay := label
+		if !hunted && !(n.t.Sub(lastStop) < slack) {
+			r.Viol("na-to-unhunted", fmt.Sprintf("forged NA to %s which is not in the hunt list at emission (target %s)", n.ethDst, n.target), replay)
+		}
+		if !anyRouter {
+			r.Viol("na-before-router", "forged NA emitted before any router was learned: "+n.show(), replay)
+		}
+		if !routers[n.target] {
+			r.Viol("na-unknown-target", "forged NA for an address that is not a learned router: "+n.show(), replay)
+		}
+		if n.flags != "001" || n.hop != 255 || n.tlla != host || n.ethSrc != host || n.ipSrc != n.target {
+			r.Viol("na-shape", "forged NA is not (router address bound to our MAC, override, hop limit 255): "+n.show(), replay)
+		}
+		if !closedAt.IsZero() && n.t.Sub(closedAt) > slack {
+			r.Viol("na-after-close", "forged NA emitted after Close: "+n.show(), replay)
+		}
+	}
+	// after StopHunt (effective) no NA reaches the host later than one loop period, unless hunted again
+	for i, c := range calls {
+		if c.op.kind != 'P' || c.obs != "normal" {
+			continue
+		}
+		until := endT
+		for _, d := range calls[i+1:] {
+			if d.op.kind == 'S' && hx(d.op.mac) == hx(c.op.mac) && strings.HasPrefix(d.obs, "hunt") {
+				until = d.t0
+				break
+			}
+		}
+		for _, n := range nas {
+			if n.ethDst == hx(c.op.mac) && n.t.After(c.t1.Add(slack)) && n.t.Before(until) {
+				r.Viol("na-after-stop", fmt.Sprintf("forged NA to %s %v after StopHunt returned", n.ethDst, n.t.Sub(c.t1)), label)
+			}
+		}
+	}
+}
+
+// ---------------------------------------------------------------------------------------------
+
+var (
+	hMACs = []net.HardwareAddr{{2, 0, 0, 0, 0, 1}, {2, 0, 0, 0, 0, 2}, {2, 0, 0, 0, 0, 3}, {2, 0, 0, 0, 0, 4}}
+	rSrcs = []netip.Addr{netip.MustParseAddr("fe80::1:11"), netip.MustParseAddr("fe80::1:12"), netip.MustParseAddr("2001:db8::1")}
+	rEths = []net.HardwareAddr{{0, 0x66, 0x66, 0x66, 0x66, 0x66}, {0, 0x77, 0x77, 0x77, 0x77, 0x77}, {0, 0x88, 0x88, 0x88, 0x88, 0x88}}
+)
+
+func huntIP(rng *lib.Rand, m int) netip.Addr {
+	switch rng.Intn(12) {
+	case 0, 1, 2:
+		return netip.Addr{} // address-less
+	case 3, 4, 5, 6:
+		return netip.AddrFrom16([16]byte{0xfe, 0x80, 0, 0, 0, 0, 0, 0, 0, 0, 0, 0, 0, 0, 1, byte(m + 1)})
+	case 7:
+		return netip.AddrFrom16([16]byte{0xfe, 0x80, 0, 0, 0, 0, 0, 0, 0, 0, 0, 0, 0, 0, 2, byte(m + 1)}) // a second LLA of the same host
+	case 8:
+		return netip.AddrFrom16([16]byte{0x20, 0x01, 0x0d, 0xb8, 0, 0, 0, 0, 0, 0, 0, 0, 0, 0, 0, byte(m + 1)}) // global
+	case 9:
+		return netip.AddrFrom4([4]byte{192, 168, 0, byte(10 + m)}) // IPv4
+	case 10:
+		return netip.AddrFrom4([4]byte{169, 254, 1, byte(10 + m)}) // IPv4 link-local
+	default:
+		return netip.AddrFrom16([16]byte{0, 0, 0, 0, 0, 0, 0, 0, 0, 0, 0xff, 0xff, 169, 254, 1, byte(m + 1)}) // 4in6 link-local
+	}
+}
+
+func genScript(rng *lib.Rand, n int, delay func() int, ras [][]byte) []hop {
+	var ops []hop
+	for i := 0; i < n; i++ {
+		var o hop
+		switch c := rng.Intn(100); {
+		case c < 34:
+			m := rng.Intn(len(hMACs))
+			o = hop{kind: 'S', mac: hMACs[m], ip: huntIP(rng, m)}
+		case c < 56:
+			m := rng.Intn(len(hMACs))
+			o = hop{kind: 'P', mac: hMACs[m], ip: huntIP(rng, m)}
+		case c < 60:
+			o = hop{kind: 'C'}
+		default:
+			k := rng.Intn(len(rSrcs))
+			if rng.Chance(60) {
+				k = 0
+			}
+			o = hop{kind: 'R', counter: rng.Pick(3, 3, 3, 3, -1, 7, 0, 1, 2, 4), hk: !rng.Chance(8), src: rSrcs[k], eth: rEths[k], msg: ras[rng.Intn(len(ras))]}
+		}
+		o.delay = delay()
+		ops = append(ops, o)
+	}
+	return ops
+}
+
+func registerHunt(r *lib.Run) {
+	r.Register("h", func(a []string) string {
+		toks, obs := runScript(r, parseScript(a), "replay")
+		r.Sample("replayed history derived line: h " + strings.Join(toks, " "))
+		return obs
+	})
+}
+
+func huntScenarios(r *lib.Run, rng *lib.Rand) {
+	ras := directedRAs()[:6]
+	for i := 0; i < 6; i++ {
+		_, m := genRA(rng)
+		if !zeroLenOption(m) && !hasXN(m) {
+			ras = append(ras, m)
+		}
+	}
+	nImm, nTimed, timedOps := 40, 3, 8
+	if r.Thorough() {
+		nImm, nTimed, timedOps = 600, 24, 14
+	}
+	var wg sync.WaitGroup
+	run := func(class string, ops []hop) {
+		defer wg.Done()
+		t0 := time.Now()
+		label := class
+		toks, obs := runScript(r, ops, class)
+		if class == "immediate" && time.Since(t0) > 1700*time.Millisecond {
+			r.Stat("hunt.immediate.too-slow-dropped", 1) // a loop timer may have fired: not an immediate scenario any more
+			return
+		}
+		_ = label
+		r.Case("h", toks, obs)
+		r.Stat("class.h."+class, 1)
+	}
+	// timed scenarios first: they run alongside everything else
+	for i := 0; i < nTimed; i++ {
+		rg := rng.Fork()
+		ops := genScript(rg, timedOps, func() int { return rg.Pick(30, 300, 1200, 2100, 2900, 3100) }, ras)
+		// make sure something can be observed: a processed RA and a hunt early on
+		ops = append([]hop{
+			{kind: 'R', counter: 3, hk: true, src: rSrcs[0], eth: rEths[0], msg: ras[1], delay: 20},
+			{kind: 'S', mac: hMACs[0], ip: netip.Addr{}, delay: 400},
+			{kind: 'S', mac: hMACs[1], ip: huntIP(rg, 1), delay: 2500},
+		}, ops...)
+		wg.Add(1)
+		go run("timed", ops)
+	}
+	// directed immediate scenarios
+	lla1 := netip.MustParseAddr("fe80::1:1")
+	directed := [][]hop{
+		{ // hunts before any router: nothing may be sent; then the RA, then both loops fire
+			{kind: 'S', mac: hMACs[0], ip: lla1, delay: 20}, {kind: 'S', mac: hMACs[1], delay: 20},
+			{kind: 'R', counter: 3, hk: true, src: rSrcs[0], eth: rEths[0], msg: ras[1], delay: 40},
+			{kind: 'R', counter: 3, hk: true, src: rSrcs[1], eth: rEths[1], msg: ras[3], delay: 40},
+			{kind: 'P', mac: hMACs[0], ip: lla1, delay: 20},
+			{kind: 'R', counter: 0, hk: true, src: rSrcs[0], eth: rEths[0], msg: ras[1], delay: 40},
+			{kind: 'C', delay: 20},
+		},
+		{ // filters and idempotence
+			{kind: 'R', counter: 3, hk: true, src: rSrcs[0], eth: rEths[0], msg: ras[1], delay: 20},
+			{kind: 'S', mac: hMACs[0], ip: netip.MustParseAddr("192.168.0.10"), delay: 20},
+			{kind: 'S', mac: hMACs[0], ip: netip.MustParseAddr("2001:db8::1"), delay: 20},
+			{kind: 'S', mac: hMACs[0], ip: lla1, delay: 30}, {kind: 'S', mac: hMACs[0], ip: lla1, delay: 30},
+			{kind: 'S', mac: hMACs[0], delay: 30},
+			{kind: 'P', mac: hMACs[0], ip: netip.MustParseAddr("2001:db8::1"), delay: 20},
+			{kind: 'R', counter: 1, hk: true, src: rSrcs[0], eth: rEths[0], msg: ras[1], delay: 40},
+			{kind: 'P', mac: hMACs[0], delay: 20},
+			{kind: 'R', counter: 1, hk: true, src: rSrcs[0], eth: rEths[0], msg: ras[1], delay: 40},
+		},
+		{ // Close with a hunted host, then an RA (ra-after-close), then another
+			{kind: 'R', counter: 3, hk: true, src: rSrcs[0], eth: rEths[0], msg: ras[1], delay: 20},
+			{kind: 'S', mac: hMACs[2], delay: 30}, {kind: 'C', delay: 20},
+			{kind: 'R', counter: 3, hk: true, src: rSrcs[1], eth: rEths[1], msg: ras[1], delay: 30},
+			{kind: 'R', counter: 3, hk: true, src: rSrcs[1], eth: rEths[1], msg: ras[1], delay: 30},
+			{kind: 'S', mac: hMACs[3], delay: 30},
+		},
+	}
+	sem := make(chan bool, 8)
+	for _, ops := range directed {
+		wg.Add(1)
+		sem <- true
+		go func(ops []hop) { defer func() { <-sem }(); run("immediate", ops) }(ops)
+	}
+	for i := 0; i < nImm; i++ {
+		rg := rng.Fork()
+		ops := genScript(rg, 4+rg.Intn(9), func() int { return rg.Pick(30, 45, 60) }, ras)
+		wg.Add(1)
+		sem <- true
+		go func(ops []hop) { defer func() { <-sem }(); run("immediate", ops) }(ops)
+	}
+	wg.Wait()
+}
